@@ -50,8 +50,15 @@ type Frame struct {
 	callOrd  map[string]int
 	entrySt  *State
 	envVars  map[string]Val
+	refs     map[string][]refRec
+	curBlock *ssa.BasicBlock
 	// results
 	rets []retInfo
+}
+
+type refRec struct {
+	blk *ssa.BasicBlock
+	v   ssa.Value
 }
 
 type retInfo struct {
@@ -107,6 +114,7 @@ func (c *Ctx) execFunc(fr *Frame, args []Val, st *State, R string) ([]Val, *Stat
 			conds = append(conds, e.cond)
 			states = append(states, e.st)
 		}
+		fr.curBlock = b
 		Rb := c.define("R_"+fn.Name()+"_"+fmt.Sprint(b.Index), SBool, tOr(conds...))
 		cur := c.mergeStates(conds, states)
 		li := fr.loops[b]
@@ -675,6 +683,12 @@ func (fr *Frame) exec(ins ssa.Instruction, st *State, R string) {
 	c := fr.c
 	switch t := ins.(type) {
 	case *ssa.DebugRef:
+		if obj := t.Object(); obj != nil && !t.IsAddr {
+			if fr.refs == nil {
+				fr.refs = map[string][]refRec{}
+			}
+			fr.refs[obj.Name()] = append(fr.refs[obj.Name()], refRec{t.Block(), t.X})
+		}
 		return
 	case *ssa.Alloc:
 		el := t.Type().(*types.Pointer).Elem()
@@ -720,7 +734,7 @@ func (fr *Frame) exec(ins ssa.Instruction, st *State, R string) {
 		switch u := t.X.Type().Underlying().(type) {
 		case *types.Slice:
 			fr.safety("index", fr.srcName(t), R, app("bvult", i, x.L[2]))
-			abs := c.define("ix", bvSort(64), app("bvadd", x.L[1], i))
+			abs := c.define("ix", bvSort(64), idxAt(x.L[1], i))
 			fr.vals[t] = Val{T: t.Type(), P: &Ptr{Kind: PElem, Obj: x.L[0], Idx: abs, ElemT: u.Elem(), Root: c.typeKey(u.Elem()), Bound: app("bvadd", x.L[1], x.L[2])}}
 		case *types.Pointer:
 			a := u.Elem().Underlying().(*types.Array)
@@ -880,7 +894,11 @@ func (c *Ctx) zeroRows(st *State, el types.Type, r string) {
 		key := "E|" + c.typeKey(el) + l.Path
 		sort := arrSort(SRef, arrSort(bvSort(64), l.Sort))
 		cur := c.comp(st, key, sort)
-		c.setComp(st, key, sort, tStore(cur, r, fmt.Sprintf("((as const %s) %s)", arrSort(bvSort(64), l.Sort), c.zeroLeaf(l))))
+		z := c.zeroLeaf(l)
+		if l.Sort == SRef || l.Sort == SIface || l.Sort == SStr {
+			z = "0" // cvc5 wants a syntactic value here; null, inil and the empty string literal are all 0
+		}
+		c.setComp(st, key, sort, tStore(cur, r, fmt.Sprintf("((as const %s) %s)", arrSort(bvSort(64), l.Sort), z)))
 	}
 }
 
